@@ -1431,8 +1431,26 @@ func suiteC19(c *Ctx) {
 		}
 		steps = append(steps, smlStep(whole))
 		c.emit(Case{"concat", steps, false})
+		// the same texts behind a prefix that a reader may or may not tolerate at the very start of its input
+		// (byte order mark, invisible characters, exotic spaces): whatever is accepted alone is accepted in the middle
+		if i%6 == 0 {
+			pre := startPrefixes[g.pick(len(startPrefixes))]
+			var steps2 []Step
+			whole2 := ""
+			for j, t := range texts {
+				steps2 = append(steps2, smlStep(pre+t))
+				if j > 0 {
+					whole2 += separators[g.pick(len(separators))]
+				}
+				whole2 += pre + t
+			}
+			steps2 = append(steps2, smlStep(whole2))
+			c.emit(Case{"concat-prefixed", steps2, false})
+		}
 	}
 }
+
+var startPrefixes = []string{"\xef\xbb\xbf", "\xef\xbb\xbf\n", "\ufeff ", "\u200b", "\x00", "\x0c", "\x0b", "\u00a0", "\u2028", "\u3000", "\ufffe", "\xff\xfe", "\u0085", "\x1a"}
 
 func monitorC19(c *Ctx, id string, cs Case, e *Exec, final []string) {
 	n := len(cs.Steps) - 1
